@@ -415,6 +415,9 @@ def run(ctx):
     check_queue_exhaustion(ctx, F)
     c18.check_bit_coder_sentinel(ctx, F)
     c08.check_bit_guards(ctx, F)
+    if ctx.tier == 'thorough':
+        from vlib import witness
+        witness.run(ctx, 'C16')
     ctx.assume('the mask holds at most one set bit (established by the constructors, which store zero, and preserved by the step functions, which store 1, mask << 1, mask >> 1 or 1 << (BITS-1))')
     return {
         'level': 'other',
